@@ -11,18 +11,15 @@ from ..report import Ctx
 from .common import INITIALIZER, METAHANDLER, REPR_MUT, REPR_XO, STEP
 
 LEVEL_TEXT = (
-    "Static rules: (R1) may-mutate effect analysis (freshness lattice: owned / fresh container with owned elements / "
-    "deep fresh) from every operator entry point - mutate and crossover of the five representations, the list/string "
-    "refinements' own mutate/crossover, iterate / pre_iterate / post_iterate / apply of every GeneticStep - with the "
-    "genotype / parent / population parameters as owned roots: no item or attribute store, del, in-place augmented "
-    "assignment or mutating container method reaches an owned value, directly or through resolved callees "
-    "(allow-list, one reason each: fitness / phenotype memoisation, the dynamic-SGE on-demand extension, random "
-    "state); (R2) relabelling is write-once: every metadata store in relabel_nodes lies behind the 'already labelled' "
-    "early return; (R3) offspring genotypes do not share gene containers the library later grows in place: for a "
-    "genotype class with an in-place extending method the container handed to the offspring is copied to full depth; "
-    "(R4) no unguarded subscript read on an attribute that holds an auto-vivifying defaultdict (a read would insert "
-    "into the other parent's metadata). Decides the shapes for all populations and generations; mutation through "
-    "user-defined steps/refinements is outside the scope."
+    "Static rules: (R1) may-mutate effect analysis with a freshness lattice from every variation entry point (mutate / "
+    "crossover of the representations and of the list / string refinements, iterate / pre_iterate / post_iterate / apply of "
+    "every step) with the genotype / parent / population parameters as owned roots: no store, del, in-place operation or "
+    "mutating method reaches them directly or through a resolved callee (allow-list with reasons: fitness and phenotype "
+    "memoisation, Genotype.get, evaluators); (R2) relabel_nodes is interpreted (finite model): an already labelled node and "
+    "its subtree are left untouched, and the labelled flag is set whenever metadata is written; (R3) for a genotype class "
+    "with an in-place growing method, offspring gene containers are copied to full depth; (R4) no unguarded subscript read on "
+    "an attribute that holds an auto-vivifying defaultdict (guards include guard clauses and short-circuit operands). "
+    "Decides these for all parents and populations; aliasing through dynamic attribute names is not decided."
 )
 
 ALLOW = {
